@@ -183,11 +183,12 @@ func (p *parser) on_parser_qualif(assoc Token, _ Token, prec Token, _ Token) *as
 
 	var err error
 	q.Precedence, err = strconv.Atoi(string(prec.Str))
-	if err != nil {
-		panic(err)
-	}
-	if q.Precedence <= 0 {
-		panic("not-reached")
+	if err != nil || q.Precedence <= 0 {
+		p.errs.Errorf(
+			prec.Pos,
+			"invalid precedence %v: it must be an integer greater than zero",
+			string(prec.Str))
+		q.Precedence = 1
 	}
 
 	return q
